@@ -25,6 +25,7 @@ UNITS = {
     'rem': {'sources': ('core', 'fpdec'), 'modes': ('F', 'D')},
     'checked_rem': {'sources': ('core', 'fpdec'), 'modes': ('F', 'D'), 'module': 'rem', 'builder': 'build_checked'},
     'dec_macro': {'sources': ('core', 'fpdec', 'macros'), 'modes': ('F', 'D')},
+    'quantize': {'sources': ('core', 'fpdec'), 'modes': ('F', 'D')},
     'cmp': {'sources': ('core', 'fpdec'), 'modes': ('F', 'D')},
     'checked_add_sub': {'sources': ('core', 'fpdec'), 'modes': ('F', 'D'), 'module': 'add_sub', 'builder': 'build_checked'},
 }
@@ -98,7 +99,7 @@ PROPS = {
         ],
     },
     'C04': {
-        'units': ['core_kernel', 'div_kernel', 'div_rounded', 'mul'],
+        'units': ['core_kernel', 'div_kernel', 'div_rounded', 'mul', 'quantize'],
         'title': 'mul_rounded, div_rounded and quantize round the exact result once, per mode',
         'design_ref': 'DESIGN.md section 7 (C04)',
         'level': 'other',
@@ -106,7 +107,7 @@ PROPS = {
         'assumptions': [
             'R5: thread default rounding mode read once per call (uninterpreted function of the thread state)',
             'the 256-bit paths enter with their interface contracts (units/wide_iface.py); their bodies are the subject of C16',
-            'quantize (generic blanket impl: div_rounded(q, 0) * q) is NOT under contract yet; its two constituents are',
+            'quantize: the generic blanket impl is verified once for all T, Q against the trait-level contracts of DivRounded and Mul (result == div_rounded(q, 0) * q); the instance lemma lemma_quantize_decimal turns that into result == k*q with k = x/q rounded once for Decimal/Decimal; the integer instances follow from the same generic contract but have no separate instance lemma',
         ],
     },
     'C09': {
@@ -177,11 +178,11 @@ PROPS = {
         'title': 'All operand forms of an operator compute the same function',
         'design_ref': 'DESIGN.md section 7 (C17)',
         'level': 'other',
-        'level_text': 'Every one of the macro-generated impls (by-value, by-reference, integer operand on either side, compound assignment) gets its contract GENERATED FROM ITS IMPL HEADER: the ok/value specification of the Decimal/Decimal form applied to the lifted operands (dec_of(i) for an integer i), and Verus proves each impl body against it (the impl count per family is checked, a changed count is exit 2). Not level proof because the property fails for one family on this tree: int.div_rounded(int, n) with n > 18 (known finding D4b); quantize is not under contract.',
+        'level_text': 'Every one of the macro-generated impls (by-value, by-reference, integer operand on either side, compound assignment) gets its contract GENERATED FROM ITS IMPL HEADER: the ok/value specification of the Decimal/Decimal form applied to the lifted operands (dec_of(i) for an integer i), and Verus proves each impl body against it (the impl count per family is checked, a changed count is exit 2). Not level proof because the property fails for one family on this tree: int.div_rounded(int, n) with n > 18 (known finding D4b).',
         'assumptions': [
             'compound assignment: impl<T> OpAssign<T> for Decimal is verified generically: same precondition and value as the operator for every T',
             'multiplication: the integer forms are judged against the exact product at the Decimal scale (no one/zero short-cut), as the property allows',
-            'quantize (generic blanket impl) is NOT under contract',
+            'quantize: one generic impl for all operand forms (verified once, unit quantize)',
         ],
     },
     'C18': {
